@@ -6,7 +6,7 @@ test -z "$(git -C /repo status --short | grep -v issue-50)" || { echo "/repo is 
 out=seeded/MATRIX.json
 echo "{" > $out.tmp
 first=1
-for d in seeded/C*-[ABCDEF]; do
+for d in seeded/C*-[ABCDEFG]; do
   id=$(basename $d); prop=${id%-*}
   status=$(python3 -c "import json;print(json.load(open('$d/meta.json')).get('status','')[:11])")
   if ! git -C /repo apply --check "$(realpath $d/patch.diff)" 2>/dev/null; then
